@@ -53,31 +53,18 @@ func verifyBlockSuccession(reader db.KeyValueReader, block *core.Block) error {
 	return nil
 }
 
-// verifyOldRootMatchesHead checks that the state update starts from the state of the current
-// chain head (the zero root for an empty chain). The block hash does not cover the old root, so
-// without this check a state update could be applied on top of an unrelated (e.g. empty) state.
-func verifyOldRootMatchesHead(reader db.KeyValueReader, stateUpdate *core.StateUpdate) error {
-	expectedRoot := &felt.Zero
-
+// headStateRoot returns the state root recorded in the current head's header (the zero root for an
+// empty chain). Store opens the state there: the block hash does not cover the state update's old
+// root, so the old root must be checked against the head's state rather than used to pick a state.
+func headStateRoot(reader db.KeyValueReader) (*felt.Felt, error) {
 	height, err := core.GetChainHeight(reader)
-	if err == nil {
-		headRoot, err := core.GetGlobalStateRootByBlockNumber(reader, height)
-		if err != nil {
-			return err
+	if err != nil {
+		if errors.Is(err, db.ErrKeyNotFound) {
+			return &felt.Zero, nil
 		}
-		expectedRoot = headRoot
-	} else if !errors.Is(err, db.ErrKeyNotFound) {
-		return err
+		return nil, err
 	}
-
-	if stateUpdate.OldRoot == nil || !stateUpdate.OldRoot.Equal(expectedRoot) {
-		return fmt.Errorf(
-			"state update's old root %v does not match the head's state root %v",
-			stateUpdate.OldRoot,
-			expectedRoot,
-		)
-	}
-	return nil
+	return core.GetGlobalStateRootByBlockNumber(reader, height)
 }
 
 // updateBlockHash computes block hash and commitments, mutates block and stateUpdate in place.
